@@ -17,7 +17,7 @@ Proof.
     destruct (t_offerDirection t) as [o|] eqn:Eo.
     + bind_inv Ht' d Hd. inversion Ht'; subst. split; [reflexivity|].
       intros o' d' E1 E2. cbn. congruence.
-    + inversion Ht'; subst. split; [reflexivity|]. intros o d E. discriminate.
+    + inversion Ht'; subst. split; [reflexivity|]. intros o d E. congruence.
 Qed.
 
 Lemma set_local_answer_trs : forall fixed T p d p',
@@ -103,7 +103,7 @@ Proof.
   apply tinfo_fields in Hti. destruct Hti as [Hak _]. apply akey_fields in Hak. destruct Hak as [Hkb [Hmb _]].
   exists ta, tb', da. split; [exact Hda|]. split; [exact Hina|]. split; [exact Hma'|]. split; [exact Hka|].
   split; [exact Hinb'|]. split; [rewrite Hmb, Emid; exact Hmidb|]. split; [rewrite Hkb; symmetry; exact Ekind|].
-  split; [rewrite Edd; apply (Hcb ob dd eq_refl F2)|]. split; [exact Hcur|]. split.
+  split; [rewrite Edd; apply (Hcb ob dd Eob F2)|]. split; [exact Hcur|]. split.
   - intros t Hin Hm. apply (aligned_unique _ _ _ _ _ (wf_al _ _ Wa3) Hin Hina Hm Hma').
   - intros t Hin Hm. apply (aligned_unique _ _ _ _ _ (wf_al _ _ Wb2) Hin Hinb' Hm). rewrite Hmb, Emid. exact Hmidb.
 Qed.
